@@ -1,0 +1,12 @@
+//go:build !verif
+
+package avfs
+
+// VerifBatchBegin does nothing without the verif build tag.
+func VerifBatchBegin() {}
+
+// VerifBatchEnd does nothing without the verif build tag.
+func VerifBatchEnd() {}
+
+// verifTempName returns name unchanged without the verif build tag.
+func verifTempName(name, _, _ string) string { return name }
